@@ -24,6 +24,10 @@ import (
 	"github.com/LiskHQ/lisk-engine/pkg/p2p"
 )
 
+// one small block cache for every DB of the process (pebble allocates 8 MB per DB otherwise,
+// which the leaked iterators of db.IterateRange keep alive after Close)
+var sharedCache = pebble.NewCache(8 << 20)
+
 // Validator is one member of the key universe.
 type Validator struct {
 	Index   int
@@ -266,7 +270,8 @@ func NewWithABI(cfg Config, abi *ABI) (*Node, error) {
 func (n *Node) open() error {
 	// small memtables: lisk-engine's db.IterateRange leaks its pebble iterator, which pins the
 	// memtable arena of every node the harness ever opened (4 MB each by default)
-	opts := &pebble.Options{MemTableSize: 512 << 10}
+	opts := &pebble.Options{MemTableSize: 256 << 10, Cache: sharedCache, MaxOpenFiles: 16}
+	opts.Experimental.TableCacheShards = 1
 	if n.Cfg.PebbleOpts != nil {
 		o := *n.Cfg.PebbleOpts
 		opts = &o
